@@ -387,6 +387,10 @@ def _oracle_step(style, ref, op, outcome, cssnames):
             e = ref.effective(c)
             if getattr(style, dom) != (e[3] if e else ""):
                 return "attribute %s is not an alias of getPropertyValue(%r)" % (dom, c)
+    if k in ("sa", "da") and raw is not None:
+        e = ref.effective(digest(raw)[2])
+        if getattr(style, op[1] if k == "da" else op[2]) != (e[3] if e else ""):
+            return "attribute %s is not an alias of getPropertyValue(%r)" % (op[1] if k == "da" else op[2], raw)
     if setname and before_nodup and ref.nodup():
         raw, v, _ = setname
         if style.getPropertyValue(raw) != v:
